@@ -170,7 +170,118 @@ def _unesc(s):
     return s.replace('\\"', '"').replace('\\n', '\n').replace('\\\\', '\\')
 
 
-def _find_anchor(text, m, arg, what):
+_TOK = re.compile(r'[A-Za-z_][A-Za-z0-9_]*|\d\w*|\S')
+_IDENT = re.compile(r'[A-Za-z_][A-Za-z0-9_]*$')
+_KEYWORDS = frozenset(('as break const continue crate else enum extern false fn for if impl in let loop match mod move mut pub ref '
+                       'return self Self static struct super trait true type unsafe use where while async await dyn Some None Ok Err').split())
+
+
+def _tokens(m):
+    return [(mo.group(0), mo.start(), mo.end()) for mo in _TOK.finditer(m)]
+
+
+def _token_spans(m, anchor, toks=None):
+    """(start, end) of every place where the tokens of `anchor` occur in the masked text `m`, white space ignored"""
+    atoks = _TOK.findall(mask(anchor))
+    if not atoks:
+        return []
+    toks = toks if toks is not None else _tokens(m)
+    out = []
+    first = atoks[0]
+    for i in range(len(toks) - len(atoks) + 1):
+        if toks[i][0] != first:
+            continue
+        if all(toks[i + k][0] == a for k, a in enumerate(atoks)):
+            out.append((toks[i][1], toks[i + len(atoks) - 1][2]))
+    return out
+
+
+def _anchor_texts(spec):
+    for frm, to, which, tline in spec.subs:
+        if which != 'opt':
+            yield frm
+    for kind, arg, lines, tline in spec.blocks:
+        if kind in ('before', 'after', 'stmt', 'at'):
+            mo = re.match(r'"((?:[^"\\]|\\.)*)"', arg)
+            if mo:
+                yield _unesc(mo.group(1))
+
+
+def _bound_local(m, name):
+    nm = re.escape(name)
+    return re.search(r'(?:let\s+(?:mut\s+)?\(?|[(,|]\s*(?:mut\s+)?|Some\(|Ok\(|Err\(|for\s+\(?)%s\s*[:=,)|]|for\s+%s\s+in\b' % (nm, nm), m) is not None
+
+
+def _alpha_recover(text, spec, what, log):
+    """RA: a local variable of the function was renamed, so an anchor of the template no longer occurs. If the anchor matches the
+    function token for token except for names that no longer occur in the function at all, and the names found in their place
+    are bound locals, the function is alpha-renamed back to the names the template was written with (a consistent renaming
+    of a local to a name that occurs nowhere in the function: same program). Anything ambiguous is left alone and the
+    extraction fails as before (UNDECIDED)."""
+    m = mask(text)
+    toks = _tokens(m)
+    idents = {t for t, _, _ in toks if _IDENT.match(t)}
+    mapping = {}
+    for anchor in _anchor_texts(spec):
+        if anchor in text or _token_spans(m, anchor, toks):
+            continue
+        atoks = _TOK.findall(mask(anchor))
+        missing = {a for a in atoks if _IDENT.match(a) and a not in idents and a not in _KEYWORDS}
+        if not missing or not atoks:
+            continue
+        cands = set()
+        for i in range(len(toks) - len(atoks) + 1):
+            local = {}
+            ok = True
+            for k, a in enumerate(atoks):
+                t = toks[i + k][0]
+                if a in missing:
+                    if not _IDENT.match(t) or t in _KEYWORDS or local.setdefault(a, t) != t:
+                        ok = False
+                        break
+                elif a != t:
+                    ok = False
+                    break
+            if ok and len(set(local.values())) == len(local):
+                cands.add(tuple(sorted(local.items())))
+        if len(cands) != 1:
+            continue
+        for old, new in cands.pop():
+            if mapping.get(old, new) != new:
+                return text          # inconsistent: leave it
+            mapping[old] = new
+    if not mapping or len(set(mapping.values())) != len(mapping):
+        return text
+    for old, new in mapping.items():
+        if not _bound_local(m, new) or old in idents:
+            return text
+    inv = {new: old for old, new in mapping.items()}
+    out = []
+    last = 0
+    n = 0
+    for t, a, b in toks:
+        if t in inv:
+            k = a - 1
+            while k >= 0 and m[k].isspace():
+                k -= 1
+            j = b
+            while j < len(m) and m[j].isspace():
+                j += 1
+            if (k >= 0 and m[k] == '.' and not (k >= 1 and m[k - 1] == '.')) or (k >= 1 and m[k - 1:k + 1] == '::') \
+                    or m.startswith('::', j) or m.startswith('(', j) or m.startswith('!', j):
+                continue     # field / method / path segment / call of the same spelling: not the local
+            out.append(text[last:a])
+            out.append(inv[t])
+            last = b
+            n += 1
+    out.append(text[last:])
+    for old, new in mapping.items():
+        log['rewrites'].append({'rule': 'RA', 'item': what, 'count': n,
+                                'note': 'local `%s` alpha-renamed back to `%s` (the name the proof hints use)' % (new, old)})
+    return ''.join(out)
+
+
+def _find_anchor(text, m, arg, what, span=False):
     mo = re.match(r'"((?:[^"\\]|\\.)*)"\s*(#\d+|#last)?\s*$', arg)
     if not mo:
         raise ExtractError('bad anchor syntax: %s' % arg)
@@ -179,20 +290,24 @@ def _find_anchor(text, m, arg, what):
     pos = []
     j = text.find(anchor)
     while j >= 0:
-        pos.append(j)
+        pos.append((j, j + len(anchor)))
         j = text.find(anchor, j + 1)
     if not pos:
+        # same tokens, different white space (the pretty-printer wraps lines by length)
+        pos = _token_spans(m, anchor)
+    if not pos:
         raise ExtractError('anchor lost in %s: "%s"' % (what, anchor))
+    pick = (lambda p: p) if span else (lambda p: p[0])
     if occ == '#last':
-        return pos[-1]
+        return pick(pos[-1])
     if occ:
         k = int(occ[1:])
         if k > len(pos):
             raise ExtractError('anchor "%s" occurrence %s lost in %s' % (anchor, occ, what))
-        return pos[k - 1]
+        return pick(pos[k - 1])
     if len(pos) != 1:
         raise ExtractError('anchor "%s" ambiguous (%d) in %s' % (anchor, len(pos), what))
-    return pos[0]
+    return pick(pos[0])
 
 
 def _header_end(m):
@@ -276,9 +391,17 @@ def build_item(src, spec, idx, log):
     what = '%s :: %s' % (spec.crate, spec.path)
     # 1. catalogued rewrites
     text = rewrite.apply(text, spec.rules, what, log)
+    # 1b. RA: undo a renaming of locals that would make the template's anchors unfindable
+    text = _alpha_recover(text, spec, what, log)
     # 2. logged literal substitutions
     for frm, to, which, tline in spec.subs:
         cnt = text.count(frm)
+        if cnt == 0 and which == '#1!':
+            sp = _token_spans(mask(text), frm)
+            if len(sp) == 1:     # same tokens, different white space
+                text = text[:sp[0][0]] + to + text[sp[0][1]:]
+                log['subs'].append({'item': what, 'from': frm, 'to': to, 'count': 1})
+                continue
         if which == 'opt':
             # optional: applied wherever it occurs (used for flat-namespace renames of call targets)
             if cnt:
@@ -400,9 +523,8 @@ def build_item(src, spec, idx, log):
                 raise ExtractError('//@stmt: anchor %s is not on the first line of a statement in %s' % (arg, what))
             inserts.append((ls, lines, okey))
         elif kind == 'at':
-            a = _find_anchor(text, m, arg, what)
-            mo_a = re.match(r'"((?:[^"\\]|\\.)*)"', arg)
-            inserts.append((a + len(_unesc(mo_a.group(1))), [''] + lines, okey))
+            a, a_end = _find_anchor(text, m, arg, what, span=True)
+            inserts.append((a_end, [''] + lines, okey))
         elif kind == 'head':
             inserts.append((hdr_end + 1, [''] + lines, okey))
         elif kind == 'loopstart':
